@@ -29,7 +29,7 @@ Definition zpbilinear o sm sa sb s W (a b : zparr) : res zparr := @pbilinear ZR 
 Definition zpdet o bs d (p : zparr) : res zparr := @pdet ZR o bs d p.
 Definition zprearr o s sg (p : zparr) : res zparr := @prearr ZR o s sg p.
 """
-TARGETS = ["Props/P_C10.vo"]
+TARGETS = ["Gen/GenSource.vo", "Bridge/BridgeSrcC10.vo", "Props/P_C10.vo"]
 SHIFT = 20
 
 
@@ -86,7 +86,8 @@ def float_elements(p):
 
 
 def run(report, tier, seed):
-    ok = core.prove(report, TARGETS)
+    from harness.translators import source_tr
+    ok = core.prove_tied(report, TARGETS, [source_tr])
     rng = core.rng_for(seed, "C10")
     cc = core.CoqCases("C10", HEADER, shard=150)
     viol = []
